@@ -14,5 +14,7 @@ CONSTANTS
   MaxSilent = 10
 CONSTRAINT HighWater
 POSTCONDITION Accepted
+INVARIANT NotAccepted
+ALIAS Brief
 VIEW TView
 CHECK_DEADLOCK FALSE
